@@ -1,5 +1,6 @@
 import Cell2v.Driver.Util
 import Cell2v.Model.Mailbox
+import Cell2v.Driver.C09Ring
 /-!
 Model driver for C09.  The hooked real mailbox is driven one atomic step at a
 time by a controlling scheduler; every granted step is an op line
@@ -153,10 +154,31 @@ def specStep (sp : Sp) (line : String) : Sp × String :=
     | _ => (sp, "ok")
   | _ => (sp, "bad-line")
 
+/-! ### queue component (`ring …` / `mpsc …` lines, see `Driver/C09Ring.lean`): its state rides next to the mailbox state -/
+
+def stepQ (s : St × C09Ring.RS) (line : String) : (St × C09Ring.RS) × String :=
+  if C09Ring.isQueueOp line then
+    let (r, o) := C09Ring.ringStep s.2 (words line)
+    ((s.1, r), o)
+  else
+    let (m, o) := step s.1 line
+    ((m, if (words line).head? == some "reset" then {} else s.2), o)
+
+def specStepQ (s : Sp × C09Ring.SpQ) (line : String) : (Sp × C09Ring.SpQ) × String :=
+  match line.splitOn "\t" with
+  | [op, obs] =>
+    if C09Ring.isQueueOp op then
+      let (r, o) := C09Ring.specRing s.2 op obs
+      ((s.1, r), o)
+    else
+      let (m, o) := specStep s.1 line
+      ((m, if (words op).head? == some "reset" then {} else s.2), o)
+  | _ => let (m, o) := specStep s.1 line; ((m, s.2), o)
+
 end Cell2v.Driver.C09
 
 open Cell2v.Driver in
 def main (args : List String) : IO Unit :=
   match args with
-  | ["spec"] => runLoop Cell2v.Driver.C09.specStep {}
-  | _ => runLoop Cell2v.Driver.C09.step Cell2v.Mailbox.Fine.init
+  | ["spec"] => runLoop Cell2v.Driver.C09.specStepQ ({}, {})
+  | _ => runLoop Cell2v.Driver.C09.stepQ (Cell2v.Mailbox.Fine.init, {})
